@@ -149,6 +149,8 @@ pub fn owners(clause: &str) -> &'static [&'static str] {
         "quiet-silent" | "quiet-error-loud" | "quiet-hit-loud" => &["C12", "C19"],
         "over-limit" | "own-record-evicted" => &["C14"],
         "too-large" => &["C13", "C11"],
+        "too-large-modified-cond" => &["C06"],
+        "too-large-modified-cas" => &["C02"],
         "live-item-lost" | "usage-drift" | "usage-nonzero-empty" => &["C15"],
         _ => &[],
     }
